@@ -55,7 +55,11 @@ def execute(case):
     states = []
     log = []
     nontrivial = False
-    for i, op in enumerate(case["ops"]):
+    _box = {"s": s, "nontrivial": False}
+
+    def step(i, op):
+        s = _box["s"]
+        nontrivial = _box["nontrivial"]
         k = op["k"]
         if k == "save_load":
             p = s.project
@@ -111,6 +115,20 @@ def execute(case):
         else:
             out = s.apply(op)
             log.append((i, out))
+        _box["s"] = s
+        _box["nontrivial"] = nontrivial
+
+    for i, op in enumerate(case["ops"]):
+        try:
+            step(i, op)
+        except (KeyboardInterrupt, HarnessTimeout):
+            raise
+        except Exception as e:
+            if not env.raised_in_rv(e):
+                raise  # a harness bug is never a verdict
+            violations.append(_v("unexpected_exception", after=op["k"], exc=type(e).__name__, detail={"op": i, "msg": str(e)[:120]}))
+            log.append((i, op["k"], "error", type(e).__name__))
+    nontrivial = _box["nontrivial"]
     return {
         "violations": violations,
         "fired": {"restart": sum(1 for x in log if x[1] == "save_load")},
